@@ -1,9 +1,46 @@
-(* Props/C10.v -- property C10 (statements proved so far; see DESIGN.md section 7 C10). *)
-From Coq Require Import NArith List Bool.
-From NRF Require Import Env.Radio Env.RadioFacts.
+(* Props/C10.v -- property C10 (status and FIFO accessors report the radio's actual state).
+   Statements, each closed by `exact`.  Proved for the accessors that decode STATUS / FIFO_STATUS
+   (update, available, pipe, tx_full, irq_dr/irq_ds/irq_df, fifo); any()/read()/clear_status_flags()/
+   flush_*()/last_tx_arc are decided by the correspondence run and its checker (corr/c10.py). *)
+From Coq Require Import ZArith NArith List Bool.
+From NRF Require Import Env.Radio Env.World Env.RadioFacts Env.WfFacts Drv.RF24 Drv.AccessFacts.
 Import ListNotations.
 Local Open Scope N_scope.
-Theorem C10_status_is_pre_command : forall r cmd data,
-  hd 0 (snd (spi r (cmd :: data))) = status r.
+
+(* every SPI transfer shifts out STATUS as it was BEFORE the command took effect *)
+Theorem C10_status_is_pre_command : forall r cmd data, hd 0 (snd (spi r (cmd :: data))) = status r.
 Proof. exact spi_status_first. Qed.
 Print Assumptions C10_status_is_pre_command.
+
+(* Every world reachable from power-up by ANY sequence of SPI transfers, CE changes, clock readings and sleeps of
+   ANY radios -- i.e. after any traffic history with any loss pattern -- is well formed: only the three interrupt
+   flags are latched and every queued payload sits on a pipe 0..5. *)
+Theorem C10_reachable_worlds_are_well_formed : forall plus oracle ops,
+  AllWf (fold_left bus_step ops (new_world plus oracle)).
+Proof. intros plus o ops. exact (wf_reachable ops _ (wf_new_world plus o)). Qed.
+Print Assumptions C10_reachable_worlds_are_well_formed.
+
+(* available() is True exactly when the RX FIFO of the driver's radio holds a payload *)
+Theorem C10_available : forall me d w, WfR (get_radio w me) ->
+  exists d' w', available (WB me) d w = (Ok (negb (match rx_fifo (get_radio w me) with [] => true | _ => false end)), d', w').
+Proof. exact available_spec. Qed.
+Print Assumptions C10_available.
+
+(* after update(): pipe = pipe of the head of the RX FIFO (None when empty), tx_full = TX FIFO holds 3 entries,
+   irq_dr / irq_ds / irq_df = the latched RX_DR / TX_DS / MAX_RT flags of the radio *)
+Theorem C10_status_attributes : forall me d w, WfR (get_radio w me) ->
+  exists d' w', update (WB me) d w = (Ok true, d', w') /\
+    fst (fst (pipe_attr (bus := world) d' w')) = Ok (match rx_fifo (get_radio w me) with [] => None | (p, _) :: _ => Some p end) /\
+    fst (fst (tx_full_attr (bus := world) d' w')) = Ok (tx_full (get_radio w me)) /\
+    fst (fst (irq_dr (bus := world) d' w')) = Ok (N.testbit (flags (get_radio w me)) 6) /\
+    fst (fst (irq_ds (bus := world) d' w')) = Ok (N.testbit (flags (get_radio w me)) 5) /\
+    fst (fst (irq_df (bus := world) d' w')) = Ok (N.testbit (flags (get_radio w me)) 4).
+Proof. exact status_attributes. Qed.
+Print Assumptions C10_status_attributes.
+
+(* fifo(about_tx) = 2*[3 entries] + [empty] of the selected FIFO *)
+Theorem C10_fifo : forall me d w about_tx,
+  exists d' w', fifo (WB me) about_tx None d w =
+    (Ok (occ (if about_tx then length (tx_fifo (get_radio w me)) else length (rx_fifo (get_radio w me)))), d', w').
+Proof. exact fifo_spec. Qed.
+Print Assumptions C10_fifo.
